@@ -218,10 +218,12 @@ fn model_lines(c: &Case) -> Vec<String> {
 fn displaced(rep: &mut Report, rng: &mut Rng, n: usize) {
     use egglog_core_relations::DisplacedTable;
     use std::panic::{catch_unwind, AssertUnwindSafe};
+    let mut lean_lines: Vec<String> = vec![]; let mut lean_want: Vec<(usize, String, String)> = vec![];
     for _ in 0..n {
         let ids = 3 + rng.below(12) as u32;
         let nops = 1 + rng.below(12);
         let mut hist: Vec<String> = vec![];
+        let mut ll: Vec<String> = vec!["dt new".into()]; let mut lw: Vec<(usize, String, String)> = vec![];
         let res = catch_unwind(AssertUnwindSafe(|| -> Option<String> {
             let db = Database::new();
             let mut t = DisplacedTable::default();
@@ -229,12 +231,12 @@ fn displaced(rep: &mut Report, rng: &mut Rng, n: usize) {
             let mut displaced_spec: Vec<(u32, u32)> = vec![]; // (child, ts) in order
             let mut ts = 0u32;
             for _ in 0..nops {
-                if rng.chance(1, 8) { t.clear(); label = (0..ids).collect(); displaced_spec.clear(); hist.push("clear".into()); }
+                if rng.chance(1, 8) { t.clear(); label = (0..ids).collect(); displaced_spec.clear(); hist.push("clear".into()); ll.push("dt clear".into()); }
                 else {
                     ts += rng.below(2) as u32;
                     let k = 1 + rng.below(4);
                     { let mut buf = t.new_buffer();
-                      for _ in 0..k { let (a, b) = (rng.below(ids as usize) as u32, rng.below(ids as usize) as u32); hist.push(format!("union {a} {b} @{ts}")); buf.stage_insert(&[v(a), v(b), v(ts)]);
+                      for _ in 0..k { let (a, b) = (rng.below(ids as usize) as u32, rng.below(ids as usize) as u32); hist.push(format!("union {a} {b} @{ts}")); ll.push(format!("dt ins {a} {b} {ts}")); buf.stage_insert(&[v(a), v(b), v(ts)]);
                           let (la, lb) = (label[a as usize], label[b as usize]);
                           if la != lb { let (mn, mx) = (la.min(lb), la.max(lb)); for l in label.iter_mut() { if *l == mx { *l = mn; } } displaced_spec.push((mx, ts)); } } }
                     db.with_execution_state(None, |st| { t.merge(st); });
@@ -250,6 +252,8 @@ fn displaced(rep: &mut Report, rng: &mut Rng, n: usize) {
                 t.scan_generic(all.as_ref(), |_, row| rows.push(row.iter().map(|y| y.rep()).collect::<Vec<u32>>()));
                 let want: Vec<Vec<u32>> = displaced_spec.iter().map(|(c, tsx)| vec![*c, label[*c as usize], *tsx]).collect();
                 if rows != want { return Some(format!("scan = {rows:?}, expected {want:?}")); }
+                // the same scan on the Lean model (theorems C16_displaced_*)
+                ll.push("dt scan".into()); lw.push((ll.len() - 1, format!("{hist:?}"), rows.iter().map(|r| r.iter().map(|x| x.to_string()).collect::<Vec<_>>().join(",")).collect::<Vec<_>>().join(" ")));
                 if t.len() != want.len() { return Some(format!("len = {}, expected {}", t.len(), want.len())); }
                 for (kname, val) in [("lt", rng.below(4) as u32), ("ge", rng.below(4) as u32), ("eqc", rng.below(4) as u32), ("gt", rng.below(4) as u32), ("le", rng.below(4) as u32)] {
                     let cs = [(kname, 2usize, val)];
@@ -271,11 +275,17 @@ fn displaced(rep: &mut Report, rng: &mut Rng, n: usize) {
         rep.evaluations += 1;
         rep.count("displaced_table_histories", 1);
         if hist.iter().any(|h| h == "clear") && hist.len() > 2 { rep.note_nontrivial(&hist); }
+        if matches!(res, Ok(None)) { let base = lean_lines.len(); for (i, what, w) in lw { lean_want.push((base + i, what, w)); } lean_lines.extend(ll); }
         match res {
             Ok(None) => {}
             Ok(Some(f)) => rep.violate("property", "c16-displaced", format!("DisplacedTable: {f}"), json!({"history": hist})),
             Err(_) => rep.violate("property", "c16-displaced-panic", "DisplacedTable panicked (stale lookup_table after clear?)".into(), json!({"history": hist})),
         }
+    }
+    match run_driver(&lean_lines) {
+        Err(e) => rep.violate("correspondence", "driver-failure", e, json!({})),
+        Ok(m) => for (i, what, w) in lean_want { rep.traces_vs_model += 1;
+            if m[i] != w { rep.violate("correspondence", "c16-displaced-model-mismatch", format!("Lean DisplacedTable model (theorems C16_displaced_*) scans `{}`, the implementation `{w}` after {what}", m[i]), json!({"line": i})); break; } }
     }
 }
 
